@@ -56,12 +56,13 @@ struct Rng {
 };
 static uint64_t hash_name(std::string const& s) { uint64_t h = 1469598103934665603ull; for (unsigned char c : s) { h ^= c; h *= 1099511628211ull; } return h; }
 
-// input classes: 0 small integers, 1 halves (ties of round), 2 uniform [-4,4], 3 wide magnitudes, 4 special values
+// input classes: 0 small integers, 1 halves (ties of round), 2 uniform [-4,4], 3 wide magnitudes, 4 special values, 5 {-1,0,1}
 static float gen_float(Rng& r, int cls) {
   switch (cls) {
     case 0: return (float)((int)(r.next() % 17) - 8);
     case 1: return (float)((int)(r.next() % 33) - 16) * 0.5f;
     case 2: return (float)(r.unit() * 8.0 - 4.0);
+    case 5: return (float)((int)(r.next() % 3) - 1);                       // -1, 0, 1: axis vectors, exact ties of comparisons (k == 0 in refract, dot == 0)
     case 3: { double m = r.unit() * 2 - 1; int e = (int)(r.next() % 61) - 30; return (float)std::ldexp(m, e); }
     default: {
       static const float sp[] = {0.0f, -0.0f, 1.0f, -1.0f, 0.5f, -0.5f, 2.0f, 1.5f, -2.5f, 1e-30f, -1e-30f, 1e30f, -1e30f, 8388607.5f, 8388608.0f, -8388609.0f, 16777216.0f,
@@ -88,7 +89,7 @@ struct LineReg {
     if (!want(op)) return;
     Rng r(seed ^ hash_name(op)); std::vector<S> in(nin), out(nout);
     for (int k = 0; k < count; ++k) {
-      int cls = k % 10 < 3 ? 0 : k % 10 < 5 ? 1 : k % 10 < 8 ? 2 : k % 10 == 8 ? 3 : 4;
+      int cls = k % 12 < 3 ? 0 : k % 12 < 5 ? 1 : k % 12 < 8 ? 2 : k % 12 == 8 ? 3 : k % 12 == 9 ? 4 : 5;
       for (int i = 0; i < nin; ++i) in[i] = (S)gen_float(r, cls);
       if (cls == 4 || k % 7 == 3) for (int i = 0; i < nin; ++i) if (r.next() % 3) in[i] = (S)gen_float(r, 2);      // specials diluted; mixed classes
       if (sizeof(S) == 8 && cls == 2) for (int i = 0; i < nin; ++i) in[i] = (S)(r.unit() * 8.0 - 4.0);            // full double mantissas
